@@ -2092,10 +2092,16 @@ class Builder(object):
             msg = "Error building %s. Unused tokens." % (command,)
             raise excepting.ParseError(msg, tokens, index)
 
+        try:
+            goal = int(value)
+        except (ValueError, OverflowError, TypeError):  # nan, inf
+            msg = "Error building %s. invalid repeat %s." % (command, value)
+            raise excepting.ParseError(msg, tokens, index)
+
         # build need act for transact
         need = self.makeImplicitDirectFramerNeed( name="recurred",
                                                   comparison='>=',
-                                                  goal=int(value),
+                                                  goal=goal,
                                                   tolerance=0)
 
         needs = []
